@@ -317,6 +317,8 @@ class Game(AsyncMode):
                     raise AssertionError("Mode {} is not supposed to run outside of game."
                                          .format(mode.name))
         self.machine.game = None
+        # a player whose player_adding queue is still held is not added to (and charged for) a game that is over
+        self._players_adding = []
 
     async def _start_ball(self, is_extra_ball=False):
         """Perform ball start procedure.
